@@ -39,6 +39,10 @@ pub struct K17 {
     /// (state that accumulates slowly over a long session), delivered as a backlog
     #[serde(default)]
     pub sweep: usize,
+    /// compass sweep: one positioned aircraft sends this many velocity reports whose heading walks
+    /// round the compass in 0.02 degree steps while the Map tab is shown
+    #[serde(default)]
+    pub compass: usize,
 }
 
 fn default_rx() -> (f64, f64) {
@@ -107,7 +111,7 @@ pub const INVALID_CLI: [&[&str]; 18] = [
 pub fn generate(rng: &mut Rng, fault_free: bool) -> K17 {
     if !fault_free && rng.chance(0.08) {
         let a = *rng.pick(&INVALID_CLI);
-        return K17 { args: vec![], cols: 80, rows: 24, refused_first: 0, lines: vec![], events: vec![], quit_at_us: 100_000, quit_ctrl_c: false, proc_delay_us: vec![], reconnect_at_us: None, invalid_cli: Some(a.iter().map(|s| s.to_string()).collect()), rx: (35.0, -80.0), sweep: 0 };
+        return K17 { args: vec![], cols: 80, rows: 24, refused_first: 0, lines: vec![], events: vec![], quit_at_us: 100_000, quit_ctrl_c: false, proc_delay_us: vec![], reconnect_at_us: None, invalid_cli: Some(a.iter().map(|s| s.to_string()).collect()), rx: (35.0, -80.0), sweep: 0, compass: 0 };
     }
     let (cols, rows) = if fault_free {
         *rng.pick(&[(80u16, 24u16), (120, 40)])
@@ -236,19 +240,41 @@ pub fn generate(rng: &mut Rng, fault_free: bool) -> K17 {
     let refused_first = if !fault_free && rng.chance(0.2) { 1 + rng.below(8) as u32 } else { 0 };
     let proc_delay_us = if !fault_free && rng.chance(0.2) { (0..6).map(|_| *rng.pick(&[0u64, 0, 30_000, 200_000])).collect() } else { vec![] };
     let reconnect_at_us = if !fault_free && args.iter().any(|a| a == "--retry-tcp") && rng.chance(0.6) { Some(100_000 + rng.below(duration_us)) } else { None };
-    let sweep = if !fault_free && rng.chance(0.003) { 16_500 + rng.usize_below(1_500) } else { 0 };
-    if sweep > 0 {
-        // keep the session simple and long enough to work through the backlog
-        let quit_at_us = sweep as u64 * 10_600 + 3_000_000;
-        let mut events = events;
-        let n = events.len().max(1) as u64;
-        for (i, e) in events.iter_mut().enumerate() {
-            e.at_us = (i as u64 + 1) * quit_at_us / (n + 2);
+    // long sessions. The coverage sweep makes radar itself quadratic (it redraws every cell every
+    // frame), so it only runs in the thorough tier; the compass sweep is cheap enough for quick.
+    let sweep = if !fault_free && simcore::deep() && rng.chance(0.004) { 34_000 + rng.usize_below(3_000) } else { 0 };
+    let compass = if !fault_free && sweep == 0 && rng.chance(0.003) { 18_000 } else { 0 };
+    if sweep > 0 || compass > 0 {
+        let total = if sweep > 0 { sweep as u64 } else { compass as u64 + 3 };
+        let quit_at_us = total * 10_600 + 3_000_000;
+        let mut events = vec![];
+        let n = 12 + rng.below(12);
+        for i in 0..n {
+            let ev = if sweep > 0 {
+                // stay off the Map tab: it clones and draws the whole 17000-point track every frame
+                match rng.below(8) {
+                    0 => key("F4"),
+                    1 => key("c:-"),
+                    2 => key("c:+"),
+                    3 => key("F5"),
+                    _ => key("F2"),
+                }
+            } else {
+                match rng.below(8) {
+                    0 => key("F2"),
+                    1 => key("c:-"),
+                    2 => key("c:+"),
+                    _ => key("F1"),
+                }
+            };
+            events.push(KEvent { at_us: 20_000 + i * quit_at_us / (n + 2), ev });
         }
         let args: Vec<String> = args.into_iter().filter(|a| !a.starts_with("--filter-time") && a != "--retry-tcp" && !a.starts_with("--max-range") && a != "--limit-parsing").collect();
-        return K17 { args, cols, rows, refused_first: 0, lines, events, quit_at_us, quit_ctrl_c: false, proc_delay_us: vec![], reconnect_at_us: None, invalid_cli: None, rx: (35.0, -80.0), sweep };
+        let mut args = args;
+        args.retain(|a| a != "--disable-heading");
+        return K17 { args, cols, rows, refused_first: 0, lines: vec![], events, quit_at_us, quit_ctrl_c: false, proc_delay_us: vec![], reconnect_at_us: None, invalid_cli: None, rx: (35.0, -80.0), sweep, compass };
     }
-    K17 { args, cols, rows, refused_first, lines, events, quit_at_us, quit_ctrl_c: rng.chance(0.3), proc_delay_us, reconnect_at_us, invalid_cli: None, rx: RX, sweep: 0 }
+    K17 { args, cols, rows, refused_first, lines, events, quit_at_us, quit_ctrl_c: rng.chance(0.3), proc_delay_us, reconnect_at_us, invalid_cli: None, rx: RX, sweep: 0, compass: 0 }
 }
 
 pub fn compile(sc: &K17) -> KChild {
@@ -257,30 +283,54 @@ pub fn compile(sc: &K17) -> KChild {
         connects.push(KConnect { outcome: KOutcome::Refuse, segments: vec![], close_at_us: None, rst: false, eintr_reads: vec![] });
     }
     let seg = |t: u64, hex: &str| KSegment { at_us: t, hex: wire::hex(format!("*{hex};\n").as_bytes()) };
-    if sc.sweep > 0 {
+    if sc.sweep > 0 || sc.compass > 0 {
         let addr = [0x4b, 0x17, 0x01];
         let mut segments = vec![];
         let mut text = String::new();
         let mut nseg = 0u64;
-        for i in 0..sc.sweep {
-            // a new 0.01 degree cell with every report: 130 columns, then the next row
-            let lat = sc.rx.0 - 0.6 + 0.0101 * (i / 130) as f64;
-            let lon = sc.rx.1 - 0.7 + 0.0101 * (i % 130) as f64;
-            let (yz, xz) = wire::cpr_encode(lat, lon, i % 2 == 1);
-            let f = wire::df17(5, addr, wire::me_airborne_position(11, 0, 0, wire::ac12_q(9_000), false, i % 2 == 1, yz, xz));
-            text.push_str(&format!("*{};\n", wire::hex(&f)));
-            if (i + 1) % 250 == 0 || i + 1 == sc.sweep {
+        let mut nlines = 0usize;
+        let mut flush = |text: &mut String, nlines: &mut usize, force: bool| {
+            if *nlines >= 250 || (force && *nlines > 0) {
                 segments.push(KSegment { at_us: 30_000 + nseg * 1_000, hex: wire::hex(text.as_bytes()) });
                 text.clear();
+                *nlines = 0;
                 nseg += 1;
             }
+        };
+        if sc.sweep > 0 {
+            for i in 0..sc.sweep {
+                // a new 0.01 degree cell with every even/odd pair: 130 columns, then the next row
+                let cell = i / 2;
+                let lat = sc.rx.0 - 0.7 + 0.0101 * (cell / 130) as f64;
+                let lon = sc.rx.1 - 0.7 + 0.0101 * (cell % 130) as f64;
+                let (yz, xz) = wire::cpr_encode(lat, lon, i % 2 == 1);
+                let f = wire::df17(5, addr, wire::me_airborne_position(11, 0, 0, wire::ac12_q(9_000), false, i % 2 == 1, yz, xz));
+                text.push_str(&format!("*{};\n", wire::hex(&f)));
+                nlines += 1;
+                flush(&mut text, &mut nlines, false);
+            }
+        } else {
+            for odd in [false, true] {
+                let (yz, xz) = wire::cpr_encode(sc.rx.0 + 0.3, sc.rx.1 + 0.3, odd);
+                let f = wire::df17(5, addr, wire::me_airborne_position(11, 0, 0, wire::ac12_q(9_000), false, odd, yz, xz));
+                text.push_str(&format!("*{};\n", wire::hex(&f)));
+                nlines += 1;
+            }
+            for i in 0..sc.compass {
+                let th = (0.02 * i as f64).to_radians();
+                let (e, n) = (1000.0 * th.sin(), 1000.0 * th.cos());
+                let v = wire::df17(5, addr, wire::me_velocity(1, 0, wire::sub_ground_speed((e < 0.0) as u8, e.abs().round() as u16 + 1, (n < 0.0) as u8, n.abs().round() as u16 + 1), 0, 0, 5, 0, 3));
+                text.push_str(&format!("*{};\n", wire::hex(&v)));
+                nlines += 1;
+                flush(&mut text, &mut nlines, false);
+            }
         }
-        segments.extend(sc.lines.iter().map(|(t, h)| seg(*t + 30_000 + nseg * 1_000, h)));
+        flush(&mut text, &mut nlines, true);
         connects.push(KConnect { outcome: KOutcome::Accept, segments, close_at_us: None, rst: false, eintr_reads: vec![] });
         let mut events = sc.events.clone();
         events.sort_by_key(|e| e.at_us);
         events.push(KEvent { at_us: sc.quit_at_us.max(events.last().map(|e| e.at_us).unwrap_or(0)), ev: KEv::Key { code: "c:q".into(), ctrl: false, shift: false, alt: false } });
-        return KChild { connects, events, proc_delay_us: vec![], coalesce: vec![false], step_budget: 60_000 + 4 * sc.sweep as u64 };
+        return KChild { connects, events, proc_delay_us: vec![], coalesce: vec![false], step_budget: 60_000 + 8 * (sc.sweep + sc.compass) as u64 };
     }
     match sc.reconnect_at_us.filter(|_| sc.args.iter().any(|a| a == "--retry-tcp")) {
         Some(rc) => {
@@ -323,15 +373,19 @@ pub fn execute(sc: &K17) -> Outcome {
     }
     let mut args: Vec<String> = vec![format!("--lat={}", sc.rx.0), format!("--long={}", sc.rx.1), "--log-folder=logs".into()];
     args.extend(sc.args.iter().cloned());
-    let run = run_child(&Spec { exe: &exe("radar"), args, child: &child, tty: Some((sc.cols, sc.rows)), wall_limit: Duration::from_secs(30) });
+    let run = run_child(&Spec { exe: &exe("radar"), args, child: &child, tty: Some((sc.cols, sc.rows)), wall_limit: Duration::from_secs(if sc.sweep > 0 { 900 } else { 60 }) });
     let mut vt = Vt::new();
-    vt.keep_from = sc.sweep as u64;
+    vt.keep_from = (sc.sweep + sc.compass) as u64;
     vt.feed(&run.out);
     let log = parse_log(&run.seam_log);
     let p = Parsed { run, vt, log };
     if sc.sweep > 0 {
-        out.fault("coverage_sweep_of_16000_cells");
+        out.fault("coverage_sweep_of_17000_cells");
         out.probe("long_session_state_accumulated");
+    }
+    if sc.compass > 0 {
+        out.fault("compass_sweep_of_headings");
+        out.probe("every_heading_drawn_on_the_map");
     }
     h.str(&p.run.seam_log);
     h.bytes(&p.run.out);
@@ -489,6 +543,10 @@ pub fn shrink(sc: &K17) -> Vec<K17> {
     if sc.reconnect_at_us.is_some() {
         c.push(K17 { reconnect_at_us: None, ..sc.clone() });
     }
+    if sc.compass > 0 {
+        c.push(K17 { compass: sc.compass / 2, ..sc.clone() });
+        c.push(K17 { compass: sc.compass - sc.compass / 16, ..sc.clone() });
+    }
     if sc.sweep > 0 {
         c.push(K17 { sweep: 0, ..sc.clone() });
         c.push(K17 { sweep: sc.sweep / 2, ..sc.clone() });
@@ -508,7 +566,7 @@ pub fn describe(sc: &K17) -> Value {
         "traffic_lines": sc.lines.len(), "events_total": sc.events.len(),
         "first_events": sc.events.iter().take(12).map(|e| format!("t={}us {:?}", e.at_us, e.ev)).collect::<Vec<_>>(),
         "quit": format!("{} at {}us", if sc.quit_ctrl_c { "ctrl-c" } else { "q" }, sc.quit_at_us),
-        "server_drops_and_reaccepts_at_us": sc.reconnect_at_us, "coverage_sweep_positions": sc.sweep,
+        "server_drops_and_reaccepts_at_us": sc.reconnect_at_us, "coverage_sweep_positions": sc.sweep, "compass_sweep_velocity_reports": sc.compass,
         "invalid_cli": sc.invalid_cli,
     })
 }
